@@ -195,7 +195,7 @@ func (descriptor *BundleDescriptor) UpdateBundleAge() (uint64, error) {
 	}
 
 	age := ageBlock.Value.(*bpv7.BundleAgeBlock)
-	return age.Increment(uint64(time.Since(descriptor.Timestamp)) / 1000), nil
+	return age.Increment(uint64(time.Since(descriptor.Timestamp).Milliseconds())), nil
 }
 
 func (descriptor BundleDescriptor) String() string {
